@@ -851,6 +851,6 @@ pub fn c09(cx: &Cx) -> i32 {
     crate::misc::output_type_rule(cx, &mut rep);
     crate::misc::op_parse_rule(cx, &mut rep);
     crate::misc::expand_self_rule(cx, &mut rep);
-    rep.assumptions = vec!["what the user's impl computes is not analysed; the analysis fixes that every generated form forwards once, in order, with the documented clone / reborrow adapters".into(), "operator name tables are checked by DM-op-tables (shared with C08)".into()];
+    rep.assumptions = vec!["what the user's impl computes is not analysed; the analysis fixes that every generated form forwards once, in order, with the documented clone / reborrow adapters".into(), "operator name tables are checked by DM-op-tables (shared with C08)".into(), "`clone()` is the identity in the value domain: a visitor run on a temporary clone instead of the value itself would not be noticed".into()];
     rep.finish("other", "static analysis: the builder for `impl` items is evaluated over base kind (Op / OpAssign) x base form (lhs by ref, rhs by ref) x requested set; the list of generated impls, their headers, Output, generics and the single forwarding call with its operand adapters are compared with the documented forwarding rules; change_owned, the reference-form detection and the Rhs default are checked as decision models", "rule instances = (rule, operator, configuration, generated impl)")
 }
